@@ -131,6 +131,15 @@ CHECKS = {
         "Trusted: mc/probe.py; 'arrows move focus only onto selectable children' judged on Pile/Columns/GridFlow/Frame; at most 2 new widgets per history.",
         "DESIGN.md §4 C08",
     ),
+    "C10": (
+        MC,
+        "explicit-state BFS over key / click histories on real Edit widgets in lock-step with a list-of-characters reference editor (own preferred-column tracking; row structure read from the widget's layout with an own parser), plus BFS over the numeric variants against a single-row reference editor modulo trimmed leading zeros",
+        "~330/850 Edit configurations (caption, initial text incl. wide/combining/newline, width, wrap space/any/clip, alignment, multiline, allow_tab, mask, str and UTF-8 bytes) x 15 keys + a "
+        "click on every cell, depth 3/4, text length <= 6, dedup on (text, offset, preferred column, view shift): text/offset model, offset range and character boundary, cursor cell, click "
+        "target, change/postchange signals, unhandled keys; IntEdit / IntegerEdit / FloatEdit depth 4/6: alphabet invariant, model modulo leading zeros.",
+        "Trusted: layout row structure (C03), mc/refs/widths.py; up/down accept any position at minimal distance from the preferred column (and the start of a combining cluster).",
+        "DESIGN.md §4 C10",
+    ),
 }
 
 PENDING_REASON = "check not built yet in this round (see DESIGN.md Appendix B build order); no claim is made"
